@@ -297,10 +297,11 @@ class Recogniser(object):
 
 
 def accepts(text, stl=True):
-    """(accepted, tokens, illegal characters) for the text as parse() sees it (a ';' is appended if missing)."""
-    if text and text[-1] != ';':
-        text = text + ';'
+    """(accepted, tokens, illegal characters); the final ';' of a text is optional: one is added unless the last TOKEN of the
+    text is a ';' (white space and comments after it do not count - the lexer skips them)."""
     toks, illegal = tokenize(text)
+    if not toks or toks[-1][1] != ';':
+        toks, illegal = tokenize(text + '\n;')
     return Recogniser(toks, stl).accepts(), toks, illegal
 
 
